@@ -116,7 +116,7 @@ structure ImplOut where
   elapsed : Nat
 
 def parseImpl (s : String) : Option ImplOut :=
-  if s = "panic" then some { result := "panic", kind := "panic", rrs := [], soa := none, log := [], logRaw := "", elapsed := 0 }
+  if s = "panic" || s = "hang" then some { result := s, kind := s, rrs := [], soa := none, log := [], logRaw := "", elapsed := 0 }
   else
     match s.splitOn " # " with
     | [res, log, el, _dump] =>
@@ -195,6 +195,7 @@ def cmdResolve (family mode zones cache script question expect impl : String) : 
         | none => ["fail:C08:unparsable-output"]
         | some io =>
           if io.kind = "panic" then ["fail:C08:panic"]
+          else if io.kind = "hang" then ["fail:C08:resolution-does-not-terminate", "fail:C10:alias-loop-hangs"]
           else
             let okRes := io.kind != "err"
             -- C08: time budget, provenance
